@@ -4,6 +4,8 @@ import (
 	"context"
 	"errors"
 	"sync/atomic"
+
+	"github.com/klev-dev/klevdb/pkg/vhook"
 )
 
 var ErrOffsetNotifyClosed = errors.New("offset notify already closed")
@@ -29,6 +31,7 @@ func (w *Offset) Wait(ctx context.Context, offset int64) error {
 	if w.nextOffset.Load() > offset {
 		return nil
 	}
+	vhook.At("notify.wait.afterFast")
 
 	// acquire current barrier
 	b, ok := <-w.barrier
@@ -37,6 +40,7 @@ func (w *Offset) Wait(ctx context.Context, offset int64) error {
 		return ErrOffsetNotifyClosed
 	}
 
+	vhook.At("notify.wait.holdingToken")
 	// probe the current offset
 	updated := w.nextOffset.Load() > offset
 
@@ -48,6 +52,7 @@ func (w *Offset) Wait(ctx context.Context, offset int64) error {
 		return nil
 	}
 
+	vhook.At("notify.wait.beforePark")
 	// now wait for something to happen
 	select {
 	case <-b:
@@ -65,13 +70,16 @@ func (w *Offset) Set(nextOffset int64) {
 		return
 	}
 
+	vhook.At("notify.set.holdingToken")
 	// set the new offset
 	if w.nextOffset.Load() < nextOffset {
 		w.nextOffset.Store(nextOffset)
 	}
+	vhook.At("notify.set.afterStore")
 
 	// close the current barrier, e.g. broadcasting update
 	close(b)
+	vhook.At("notify.set.afterBroadcast")
 
 	// create new barrier
 	w.barrier <- make(chan struct{})
@@ -87,6 +95,7 @@ func (w *Offset) Close() error {
 
 	// close the current barrier, e.g. broadcasting update
 	close(b)
+	vhook.At("notify.close.afterBroadcast")
 
 	// close the barrier channel, completing process
 	close(w.barrier)
